@@ -194,8 +194,7 @@ func (un *Unit) execInstr(fr *Frame, st *State, in ssa.Instruction) {
 		un.set(st, l, sto(un.get(st, l), "0", ref))
 		un.bind(fr, in, Val{t: ref})
 	case *ssa.MakeChan:
-		ref := un.allocRef(st, "chan")
-		un.bind(fr, in, Val{t: ref})
+		un.execMakeChan(fr, st, in)
 	case *ssa.MakeClosure:
 		ref := un.allocRef(st, "closure")
 		fn := in.Fn.(*ssa.Function)
@@ -273,7 +272,9 @@ func (un *Unit) execInstr(fr *Frame, st *State, in ssa.Instruction) {
 		// sequential proof already treats as changeable (volatile state, monitor-guarded fields at the next acquire)
 		un.note("goroutine spawned in " + funcKey(fr.fn) + ": its body is not interleaved with the spawner (lock discipline stands in)")
 		un.havocVolatile(st)
-	case *ssa.Send, *ssa.Select:
+	case *ssa.Send:
+		un.execSend(fr, st, in)
+	case *ssa.Select:
 		un.outside = fmt.Sprintf("channel operation (%T) in %s", in, funcKey(fr.fn))
 	case *ssa.SliceToArrayPointer:
 		un.outside = "SliceToArrayPointer"
@@ -345,6 +346,12 @@ func (un *Unit) trackStoredFn(p *Place, v Val) {
 }
 
 func (un *Unit) makeIface(st *State, x Val, t types.Type) Val {
+	if _, ok := types.Unalias(t).(*types.TypeParam); ok {
+		// a value of a type parameter converted to an interface: its dynamic type is unknown
+		n := un.u.freshConst("tp_iface", "g_Iface")
+		un.assume(st, un.typeFacts(st, n, types.NewInterfaceType(nil, nil)))
+		return Val{t: n}
+	}
 	if _, isIface := t.Underlying().(*types.Interface); isIface {
 		return x
 	}
@@ -375,6 +382,26 @@ var typeTagTypes = map[int]types.Type{}
 
 func (un *Unit) typeTag(t types.Type) int {
 	k := types.TypeString(types.Unalias(t), nil)
+	// an instantiation of a generic type with (its own or a method's) type parameters is the generic type itself
+	base := types.Unalias(t)
+	star := ""
+	if pt, ok := base.(*types.Pointer); ok {
+		star = "*"
+		base = types.Unalias(pt.Elem())
+	}
+	if n, ok := base.(*types.Named); ok && n.TypeArgs() != nil && n.TypeArgs().Len() > 0 {
+		all := true
+		for i := 0; i < n.TypeArgs().Len(); i++ {
+			if _, ok := types.Unalias(n.TypeArgs().At(i)).(*types.TypeParam); !ok {
+				all = false
+			}
+		}
+		if all {
+			k = star + types.TypeString(n.Origin(), nil)
+		}
+	} else if ok && n.TypeParams() != nil && n.TypeParams().Len() > 0 {
+		k = star + types.TypeString(n.Origin(), nil)
+	}
 	if id, ok := typeTags[k]; ok {
 		return id
 	}
@@ -441,11 +468,7 @@ func (un *Unit) execUnOp(fr *Frame, st *State, in *ssa.UnOp) {
 			un.bind(fr, in, Val{t: "(g_bitnot " + x.t + ")"})
 		}
 	case token.ARROW:
-		if in.CommaOk {
-			un.outside = "channel receive (comma-ok) in " + funcKey(fr.fn)
-			return
-		}
-		un.outside = "channel receive in " + funcKey(fr.fn)
+		un.execRecv(fr, st, in)
 	default:
 		un.outside = "unop " + in.Op.String()
 	}
@@ -968,8 +991,10 @@ func (un *Unit) execLookup(fr *Frame, st *State, in *ssa.Lookup) {
 	k := un.val(fr, in.Index).t
 	switch xt := in.X.Type().Underlying().(type) {
 	case *types.Map:
-		d, vv, _ := un.mapComps(xt)
+		d, vv, l := un.mapComps(xt)
 		has := and(not(eq(x.t, "0")), sel(un.get(st, d), x.t, k))
+		// a map holding some key has at least one entry
+		un.assume(st, implies(has, "(>= "+sel(un.get(st, l), x.t)+" 1)"))
 		v := ite(has, sel(un.get(st, vv), x.t, k), un.zero(xt.Elem()))
 		n := un.u.freshConst("lookup", un.u.sortOf(xt.Elem()))
 		un.addFact(eq(n, v))
